@@ -22,6 +22,7 @@ CONSTANTS
   Dedup = 1
   SwapThr = 5000
   Late = 1
+  FILTER_ALL = TRUE
   FIX_EXPIRY = TRUE
   FIX_FIFO = TRUE
   ExpChoices = {1, 3, 6}
@@ -29,6 +30,10 @@ CONSTANTS
   Horizon = 9
   AdvSet = {1, 2, 3, 4}
   ReportSet = {1}
+  BadSet = {1}
+  B1 = 2
+  B2 = 3
+  B3 = 3
   GEN = FALSE
 INVARIANTS
   PolicyHonoured Provenance ActiveInCache
